@@ -15,8 +15,9 @@
 (*     blen < min), "longer" means longer in every unit (glen > max); a    *)
 (*     password that is short only in graphemes is counted, not alarmed.   *)
 (* L2  transcription of the two check_password_quality functions           *)
-(*     (credupdatesession.rs: policy minimum, graphemes; server.rs: fixed  *)
-(*     minimum, bytes), without the zxcvbn score (third party).            *)
+(*     (credupdatesession.rs: policy minimum, graphemes; server.rs: the    *)
+(*     larger of policy and fixed minimum, graphemes), without the zxcvbn  *)
+(*     score (third party).                                                *)
 (***************************************************************************)
 EXTENDS Integers
 
@@ -28,8 +29,10 @@ L1Stored(min, max, glen, blen, bad) == bad = 0 /\ blen >= min /\ glen <= max
 UnitExact(min, max, glen, blen, bad) == bad = 0 /\ glen >= min /\ blen <= max
 
 \* ----------------------------- L2 ---------------------------------------
+\* since commit 5b34a1f the direct path uses max(policy minimum, fixed minimum) counted in graphemes
 L2Why(path, min, max, FixMin, glen, blen, bad) ==
   IF path = "direct_unix"
-  THEN IF blen < FixMin THEN "tooshort" ELSE IF blen > max THEN "toolong" ELSE IF bad = 1 THEN "badlisted" ELSE "ok"
+  THEN LET m == IF min > FixMin THEN min ELSE FixMin IN
+       IF glen < m THEN "tooshort" ELSE IF glen > max \/ blen > 4 * max THEN "toolong" ELSE IF bad = 1 THEN "badlisted" ELSE "ok"
   ELSE IF glen < min THEN "tooshort" ELSE IF glen > max THEN "toolong" ELSE IF bad = 1 THEN "badlisted" ELSE "ok"
 =============================================================================
